@@ -1315,6 +1315,13 @@ func ruleRootOverrideDropsFrontierState(w *core.World, r *core.Report) {
 			}
 		}
 		if !rebuilt {
+			// the rebuild may be the last step of a phase of its own that leaves early when a load fails: then it is
+			// not "always run" by that helper's call, yet every path that gets as far as this decision ran it
+			rebuilt = everyPathToPasses(f, b, func(s core.Site) bool {
+				return s.Name == "pkg/redis/checkpoint.RebuildBisyncFrontier"
+			})
+		}
+		if !rebuilt {
 			continue
 		}
 		n++
